@@ -139,13 +139,18 @@ type writeMerge struct {
 
 func (db *DB) unlockWrite(overflow bool, merged int, err error) {
 	for i := 0; i < merged; i++ {
+		verifPoint("write:ack")
 		db.writeAckC <- err
+		verifEvent("ack-sent", nil, nil, i)
 	}
 	if overflow {
 		// Pass lock to the next write (that failed to merge).
+		verifEvent("handoff", nil, nil, merged)
+		verifPoint("write:handoff")
 		db.writeMergedC <- false
 	} else {
 		// Release lock.
+		verifEvent("release", nil, nil, merged)
 		<-db.writeLockC
 	}
 }
@@ -154,6 +159,7 @@ func (db *DB) unlockWrite(overflow bool, merged int, err error) {
 func (db *DB) writeLocked(batch, ourBatch *Batch, merge, sync bool) error {
 	// Try to flush memdb. This method would also trying to throttle writes
 	// if it is too fast and compaction cannot catch-up.
+	verifEvent("leader", batch, nil, 0)
 	mdb, mdbFree, err := db.flush(batch.internalLen)
 	if err != nil {
 		db.unlockWrite(false, 0, err)
@@ -187,6 +193,7 @@ func (db *DB) writeLocked(batch, ourBatch *Batch, merge, sync bool) error {
 				if incoming.batch != nil {
 					// Merge batch.
 					if incoming.batch.internalLen > mergeLimit {
+						verifEvent("merge-refused", incoming.batch, nil, 0)
 						overflow = true
 						break merge
 					}
@@ -196,6 +203,7 @@ func (db *DB) writeLocked(batch, ourBatch *Batch, merge, sync bool) error {
 					// Merge put.
 					internalLen := len(incoming.key) + len(incoming.value) + 8
 					if internalLen > mergeLimit {
+						verifEvent("merge-refused", nil, incoming.key, 0)
 						overflow = true
 						break merge
 					}
@@ -211,6 +219,8 @@ func (db *DB) writeLocked(batch, ourBatch *Batch, merge, sync bool) error {
 				}
 				sync = sync || incoming.sync
 				merged++
+				verifEvent("merge-accepted", incoming.batch, incoming.key, merged)
+				verifPoint("write:merged")
 				db.writeMergedC <- true
 
 			default:
@@ -228,10 +238,13 @@ func (db *DB) writeLocked(batch, ourBatch *Batch, merge, sync bool) error {
 	seq := db.seq + 1
 
 	// Write journal.
+	verifEvent("journal", batch, nil, len(batches))
 	if err := db.writeJournal(batches, seq, sync); err != nil {
+		verifEvent("journal-failed", batch, nil, len(batches))
 		db.unlockWrite(overflow, merged, err)
 		return err
 	}
+	verifPoint("write:journal-mem")
 
 	// Put batches.
 	for _, batch := range batches {
@@ -242,7 +255,10 @@ func (db *DB) writeLocked(batch, ourBatch *Batch, merge, sync bool) error {
 	}
 
 	// Incr seq number.
+	verifPoint("write:mem-seq")
 	db.addSeq(uint64(batchesLen(batches)))
+	verifEvent("published", batch, nil, batchesLen(batches))
+	verifPoint("write:after-seq")
 
 	// Rotate memdb if it's reach the threshold.
 	if batch.internalLen >= mdbFree {
@@ -292,11 +308,14 @@ func (db *DB) Write(batch *Batch, wo *opt.WriteOptions) error {
 		case db.writeMergeC <- writeMerge{sync: sync, batch: batch}:
 			if <-db.writeMergedC {
 				// Write is merged.
+				verifEvent("merged-wait", batch, nil, 0)
 				return <-db.writeAckC
 			}
 			// Write is not merged, the write lock is handed to us. Continue.
+			verifEvent("lock-handed", batch, nil, 0)
 		case db.writeLockC <- struct{}{}:
 			// Write lock acquired.
+			verifEvent("lock-acquired", batch, nil, 0)
 		case err := <-db.compPerErrC:
 			// Compaction error.
 			return err
@@ -308,6 +327,7 @@ func (db *DB) Write(batch *Batch, wo *opt.WriteOptions) error {
 		select {
 		case db.writeLockC <- struct{}{}:
 			// Write lock acquired.
+			verifEvent("lock-acquired", batch, nil, 0)
 		case err := <-db.compPerErrC:
 			// Compaction error.
 			return err
@@ -334,11 +354,14 @@ func (db *DB) putRec(kt keyType, key, value []byte, wo *opt.WriteOptions) error 
 		case db.writeMergeC <- writeMerge{sync: sync, keyType: kt, key: key, value: value}:
 			if <-db.writeMergedC {
 				// Write is merged.
+				verifEvent("merged-wait", nil, key, 0)
 				return <-db.writeAckC
 			}
 			// Write is not merged, the write lock is handed to us. Continue.
+			verifEvent("lock-handed", nil, key, 0)
 		case db.writeLockC <- struct{}{}:
 			// Write lock acquired.
+			verifEvent("lock-acquired", nil, key, 0)
 		case err := <-db.compPerErrC:
 			// Compaction error.
 			return err
@@ -350,6 +373,7 @@ func (db *DB) putRec(kt keyType, key, value []byte, wo *opt.WriteOptions) error 
 		select {
 		case db.writeLockC <- struct{}{}:
 			// Write lock acquired.
+			verifEvent("lock-acquired", nil, key, 0)
 		case err := <-db.compPerErrC:
 			// Compaction error.
 			return err
